@@ -28,7 +28,7 @@ REQUIRED = ["angle-class.small-angle(|a|<=0.05)", "angle-class.general-angle", "
             "part.Trajectory-in-Scenario", "part.LaneletNetwork-in-Scenario", "part-with-derived-occupancies",
             "class.NetworkSharedArrays", "class.PlanningProblemsWithCommonGoal", "class.IntDtype", "class.LaneletWithPointlessStopLine", "shared-components.move-network",
             "shared-components.move-obstacle-1"]
-ASSUMPTIONS = ["tolerance 1e-9*(1+|p|+|t|) on points, 1e-8 on angles (mod 2pi)",
+ASSUMPTIONS = ["tolerance 1e-11*(1+|p|+|t|) on points of the image (1e-8 for undo), 1e-10 on angles (mod 2pi)",
                "obstacle history lists and areas are not in the statement's list and are not compared"]
 SHARDS = {"quick": 4, "thorough": 16}
 TWO_PI = 2 * math.pi
@@ -43,7 +43,7 @@ CLASSES = ["Rectangle", "Circle", "Polygon", "ShapeGroup", "InitialState", "KSSt
 
 
 def angle_pool(rng):
-    base = [0.0, 0, 1e-9, -1e-9, 1e-4, -0.01, 0.03, 0.05, -0.05, 0.0500001, -0.0500001, 0.06, math.pi / 2, -math.pi / 2,
+    base = [0.0, 0, 1e-9, -1e-9, 9e-9, -5e-9, 1e-8, 2e-8, -3e-7, 1e-4, -0.01, 0.03, 0.05, -0.05, 0.0500001, -0.0500001, 0.06, math.pi / 2, -math.pi / 2,
             math.pi, -math.pi, 3 * math.pi / 2, TWO_PI, -TWO_PI, 1.0, -2.5, 1]
     return base + [rng.uniform(-0.06, 0.06) for _ in range(3)] + [rng.uniform(-TWO_PI, TWO_PI) for _ in range(4)]
 
